@@ -129,10 +129,8 @@ PROPS = {
         ],
         assumptions=[
             'precondition of shutdown_connection: registry, channel and bus-listener invariants in their strong form (every owner '
-            'and subscriber is a connected client). Established/preserved by the verified handlers of the registry, subscription '
-            'and routing units for the registry part; for channels and bus listeners the strong form (owners connected) is NOT '
-            'yet a postcondition of the channel / bus-listener handler units (create_channel, claim_channel_end, '
-            'create_bus_listener are not verified)',
+            'and subscriber is a connected client). Established by Broker::new and preserved by every verified handler of the '
+            'registry, subscription, routing, channel and bus-listener units (all of them are dependencies of this check)',
             'statistics counters: the registry, subscription, channel, bus-listener and teardown units are verified with the '
             'cfg(feature = "statistics") code KEPT (only the attribute is dropped); the counters saturate, equality with the table '
             'sizes is claimed below usize::MAX entries; num_connections on connect (handle_event) is not verified',
@@ -161,8 +159,10 @@ PROPS = {
         trusted_base=TB_VERUS + TB_REGISTRY,
         assumptions=[
             'the registry invariant reg_inv is a precondition of every handler; it is preserved by every VERIFIED handler '
-            '(create_object, destroy_object, create_service, create_service2, destroy_service, remove_object, remove_service); '
-            'handlers that touch the same tables and are not verified in this unit are listed under undecided',
+            '(create_object, destroy_object, create_service, create_service2, destroy_service, remove_object, remove_service, the '
+            'read-only requests query_service_version, query_service_info, sync and the three handlers of a broker built without '
+            'the introspection feature); the subscription, routing and teardown units verify their handlers under the same '
+            'invariant text',
         ],
         undecided_clauses=[
             'which reply (ok / duplicate / invalid-object / foreign-object) goes on the wire: replies are outside the state '
@@ -218,30 +218,36 @@ PROPS = {
     ),
     'C02': dict(
         level='proof',
-        verus_units=['broker_serial_map', 'broker_object', 'broker_state', 'broker_handlers_routing', 'broker_handlers_registry'],
-        trusted_base=TB_VERUS + TB_CONN + [
-            'contracts of SerialMap / Object / Service / ConnectionState methods are imported verbatim from the units '
-            'that verify them (//@fn-from); ConnectionState::call_data is assumed (tuple-pattern closure)',
-            'ProtocolVersion ordering is opaque in this unit (version gates are C12); vstd specs of HashMap, Option, '
-            'hash_map::OccupiedEntry; assumed std spec of HashMap::get_mut',
+        verus_units=['broker_serial_map', 'broker_object', 'broker_state', 'broker_handlers_routing', 'broker_handlers_registry',
+                     'broker_handlers_shutdown', 'client_function_call_map'],
+        trusted_base=TB_VERUS + TB_REGISTRY + TB_CONN + [
+            'contracts of SerialMap / Object / Service / ConnectionState / State methods are imported verbatim from the units '
+            'that verify them (//@fn-from), and those units are re-verified as dependencies of this check',
+            'vstd specs of HashMap, Option, hash_map::OccupiedEntry; assumed std spec of HashMap::get_mut',
         ],
         assumptions=[
-            'callers establish calls_inv (Broker::call_function_impl, remove_service, shutdown_connection, '
-            'process_loop_result are NOT verified: ref patterns / for-loops over impl Iterator are outside Verus)',
-            'whether a message is actually put on the wire is not part of the state model (ConnectionState::send has no '
-            'specification); "delivered" is read off the caller\'s pending-call entry being consumed',
+            'all handlers are verified under ONE invariant text (units/_shared/registry_inv.rs); process_loop_result, which turns '
+            'the queued (caller serial, caller, InvalidService) entries and abort entries into messages, is NOT verified (a loop '
+            'over pop_* calls whose sends need invariants of the work queues)',
+            'whether a message is actually put on the wire is not part of the state model (ConnectionState::send has '
+            'preconditions only); "delivered" is read off the caller\'s pending-call entry being consumed',
+            'client side (unit client_function_call_map): the client allocates a caller serial under which it has nothing pending, '
+            'hands out the reply channel exactly once and only for a call it has not aborted; FunctionCallMap::poll_aborted '
+            '(iter_mut + oneshot polling) is not verified',
         ],
         undecided_clauses=[
-            'routing of the call itself and serial translation (call_function_impl)',
-            'InvalidService on service/object destruction and on owner disconnect (remove_service, shutdown_connection, '
-            'process_loop_result); caller disconnect',
+            'the step from the deferred-reply / abort queues to the wire (process_loop_result)',
             'the payload is forwarded unchanged (messages are opaque in the state model)',
+            'SerialMap::insert termination (it spins when all 2^32 serials are pending)',
         ],
-        explanation='reply acceptance and abort at handler level: Broker::call_function_reply accepts a reply exactly from the '
-                    'owner of the called object for a pending serial, consumes the pending call once, and does not touch '
-                    'the caller\'s entry when the call was aborted; Broker::abort_call marks a pending call aborted once '
-                    'and consumes the caller\'s entry; all other cases change nothing. Proved under a table invariant that '
-                    'also discharges the handlers\' expect("inconsistent state") sites.',
+        explanation='routing (call_function_impl, call_function, call_function2): a call is recorded under a fresh callee serial, in '
+                    'the service\'s set and in the caller\'s table as (callee serial, owner), nothing else changes; a reused caller '
+                    'serial closes the caller and leaves no trace. Replies and aborts (call_function_reply, abort_call, '
+                    'abort_function_call): a reply is accepted exactly from the owner of the called object for a pending serial, '
+                    'consumes the pending call once, and does not touch the caller\'s entry when the call was aborted; abort marks '
+                    'once. Destruction (remove_service): exactly the service\'s pending calls leave the table and one InvalidService '
+                    'entry per call not aborted is queued. Caller disconnect (shutdown_connection): one abort entry per pending call. '
+                    'All proved under a table invariant that also discharges the handlers\' expect("inconsistent state") sites.',
     ),
     'C10': dict(
         level='proof',
@@ -333,16 +339,18 @@ PROPS = {
             'HashMap::get_mut and Entry::or_default (+ HashSet::default() is empty, derive(Default) of the client\'s Service)',
         ],
         assumptions=[
-            'Broker::{subscribe_event, unsubscribe_event, subscribe_all_events, unsubscribe_all_events, '
-            'remove_event_subscription, remove_all_events_subscription} forward the returned boolean to the owner and '
-            'only the owner: NOT verified (handler layer)',
-            'callers establish the preconditions (inv; serial not pending / pending for add/remove_function_call)',
+            'handler layer (unit broker_handlers_subs, ten functions of broker.rs on their verbatim text): subscribe_event, '
+            'unsubscribe_event, subscribe_service, unsubscribe_service, subscribe_all_events, unsubscribe_all_events, '
+            'remove_event_subscription, remove_all_events_subscription, remove_subscription, emit_event are verified under the shared '
+            'registry invariant; a subscription is recorded on BOTH sides (service and connection) or not at all',
+            'that the 0->1 / 1->0 signal is put on the wire to the owner is a send (not in the state model); decided is that the '
+            'deferred unsubscribe notification is QUEUED exactly on the last-subscriber transition, and where an EmitEvent may go '
+            '(precondition of send: only to a connection subscribed to that event or to all events of the service)',
         ],
         undecided_clauses=[
-            'emit_event fan-out loop and owner check (broker.rs); ConnectionState::is_subscribed_to_event and the '
-            'client\'s BrokerSubscriptions::emit (closure passed to Option::map has no spec)',
-            'ServiceDestroyed notification once per subscribed connection (remove_service)',
-            'client-side subscription bookkeeping (aldrin/src/client/*.rs)',
+            'that every subscribed connection actually receives an emitted event; de-duplication inside '
+            'Service::subscribed_conn_ids (assumed accessor: HashSet extend over flatten); the client\'s BrokerSubscriptions::emit',
+            'client-side subscription bookkeeping (aldrin/src/client/*.rs) beyond unit client_broker_subscriptions',
         ],
         explanation='every subscribe/unsubscribe operation of Service returns true exactly when the subscriber set of '
                     'that event (or of all-events) changes between empty and non-empty, with the whole-state frame; '
